@@ -26,6 +26,10 @@ func main() {
 		fmt.Println(err)
 		os.Exit(2)
 	}
+	if f, ok := core.Subcommands[os.Args[1]]; ok {
+		f(os.Args[2:])
+		return
+	}
 	switch os.Args[1] {
 	case "list":
 		for _, id := range core.IDs() {
